@@ -28,6 +28,7 @@ import (
 	"verifharness/internal/locksim"
 	"verifharness/internal/locktap"
 	"verifharness/internal/report"
+	"verifharness/internal/shard"
 )
 
 func TestMain(m *testing.M) {
@@ -725,10 +726,100 @@ func runScenario(sc scen) []finding {
 	return nil
 }
 
+// quietScenario (S7, runs alone in a child process): before the lock is taken the process's timer pool already
+// has W idle workers (W callbacks were due together some time ago); then nothing but the holder's own lease
+// timers uses the pool. The holder keeps the lock for 4 L under the tenure monitors.
+func quietScenario(sc scen) []finding {
+	var wg sync.WaitGroup
+	gate := make(chan struct{})
+	for i := 0; i < sc.K; i++ {
+		wg.Add(1)
+		timeout.Call(func() { <-gate; wg.Done() }, time.Millisecond)
+	}
+	t0 := time.Now()
+	for {
+		if w, p := timeout.VerifState(); p == 0 && w >= sc.K {
+			break
+		}
+		if time.Since(t0) > 20*time.Second {
+			close(gate)
+			return nil // the pool did not grow: nothing to observe (counted as not staged)
+		}
+		time.Sleep(time.Millisecond)
+	}
+	close(gate)
+	wg.Wait()
+	time.Sleep(sc.Phase) // the workers are idle now
+	e := newEnv()
+	tH, pH := e.provider(sc.L)
+	_, pC := e.provider(sc.L)
+	defer pH.Shutdown()
+	defer pC.Shutdown()
+	h, c := pH.NewLocker("x"), pC.NewLocker("x")
+	h.Lock()
+	out := guardTenure(e, sc, tH, c, 4*sc.L, "quiet-process")
+	h.Unlock()
+	return out
+}
+
+func TestChild(t *testing.T) {
+	idx, total, _, ok := shard.Child()
+	if !ok {
+		t.Skip("not a shard child")
+	}
+	res := shard.NewResult()
+	list := quietList()
+	for i := idx; i < len(list); i += total {
+		sc := list[i]
+		for attempt := 1; ; attempt++ {
+			cn := startCanary()
+			fs := quietScenario(sc)
+			close(cn.stop)
+			stall := time.Duration(cn.worst.Load())
+			if stall > sc.L/8 && len(fs) > 0 && attempt < 3 {
+				res.Counters["scenarios_repeated_because_of_a_stall"]++
+				continue
+			}
+			res.Evals++
+			res.Counters["scenarios_S7"]++
+			b, _ := json.Marshal(sc)
+			res.Classes = append(res.Classes, string(b))
+			for _, f := range fs {
+				if stall > sc.L/8 {
+					res.Inconcl = append(res.Inconcl, fmt.Sprintf("%s: %s (canary stall %v)", f.sig, f.what, stall))
+					continue
+				}
+				res.Violation(f.sig, f.what, f.w)
+			}
+			break
+		}
+		// back to an empty pool for the next scenario of this child
+		timeout.VerifSetIdle(time.Millisecond)
+		for t0 := time.Now(); time.Since(t0) < 30*time.Second; time.Sleep(5 * time.Millisecond) {
+			if w, p := timeout.VerifState(); w == 0 && p == 0 {
+				break
+			}
+			timeout.Call(func() {}, 0) // wakes a sleeping worker so that it reads the new idle timeout
+		}
+		timeout.VerifSetIdle(30 * time.Second)
+	}
+	shard.Emit(res)
+}
+
+func quietList() []scen {
+	var list []scen
+	for _, L := range []time.Duration{200 * time.Millisecond, 400 * time.Millisecond} {
+		for _, w := range []int{2, 3, 5} {
+			list = append(list, scen{Kind: "S7", L: L, K: w, Phase: 30 * time.Millisecond})
+		}
+	}
+	return list
+}
+
 func TestCheck(t *testing.T) {
 	run := report.New("C05", "fault_enumeration")
 	defer run.Finish(t)
-	run.Rule("real-clock scenarios with lease L set through a hook, one storage tap per provider: S1 hold for 6 L (20 L thorough) with a TryLock-spinning and a parked contender, the holder acquiring through Lock, through LockWithCtx or through TryLock with a context that is cancelled right after the acquisition (the tap refuses calls whose context is done, as a network backend does); S6 a renewal answered with an error while the holder is unlocking, then another caller holds; S2 the k-th renewal CAS answered by an injected error without executing, for every k<=K, and sets of several failing calls in one tenure ({1,3,5}, {2,4,6}, {1,3,5,7}, {1,2}, {3,4}); during S1/S2 goroutines of the holder's process keep trying TryLock / LockWithCtx on the SAME (held) Locker object; S3 the holder's storage access dies at a phase of the renewal cycle and a parked contender must take over after the last lease ran out; S5 the answer of the k-th renewal is still in flight (applied by the storage) when the holder unlocks and the same Locker locks again, then the late answer arrives (variants: same Locker locks again / another provider's Locker holds next): the new tenure is held 3 L under the monitors; the order invariant of the timer queue (hook) is sampled throughout; S4 Unlock after hold times around multiples of L/2 with renewals delayed 0-5 ms (Unlock racing a renewal), then nothing / re-acquisition by the same / another Locker. In S1-S3 the caller that takes over after waiting holds for 3 L under the same monitors (its first lease must be a full one). Monitors over the tap log and probes of the record: exclusion, lease gap (each renewal completes before the lease it renews runs out), record present while held, renewal chain survives a transient error, take-over never before and at most L+2 s after the last lease ran out, at most one failing stale renewal after Unlock. distinct = distinct (scenario kind, L, k / phase / re-acquisition) instances run")
+	run.Rule("real-clock scenarios with lease L set through a hook, one storage tap per provider: S1 hold for 6 L (20 L thorough) with a TryLock-spinning and a parked contender, the holder acquiring through Lock, through LockWithCtx or through TryLock with a context that is cancelled right after the acquisition (the tap refuses calls whose context is done, as a network backend does); S6 a renewal answered with an error while the holder is unlocking, then another caller holds; S2 the k-th renewal CAS answered by an injected error without executing, for every k<=K, and sets of several failing calls in one tenure ({1,3,5}, {2,4,6}, {1,3,5,7}, {1,2}, {3,4}); during S1/S2 goroutines of the holder's process keep trying TryLock / LockWithCtx on the SAME (held) Locker object; S3 the holder's storage access dies at a phase of the renewal cycle and a parked contender must take over after the last lease ran out; S5 the answer of the k-th renewal is still in flight (applied by the storage) when the holder unlocks and the same Locker locks again, then the late answer arrives (variants: same Locker locks again / another provider's Locker holds next): the new tenure is held 3 L under the monitors; the order invariant of the timer queue (hook) is sampled throughout; S7 (one child process each, nothing else uses the timer pool): the pool already has 2/3/5 idle workers when the lock is taken, hold 4 L; S4 Unlock after hold times around multiples of L/2 with renewals delayed 0-5 ms (Unlock racing a renewal), then nothing / re-acquisition by the same / another Locker. In S1-S3 the caller that takes over after waiting holds for 3 L under the same monitors (its first lease must be a full one). Monitors over the tap log and probes of the record: exclusion, lease gap (each renewal completes before the lease it renews runs out), record present while held, renewal chain survives a transient error, take-over never before and at most L+2 s after the last lease ran out, at most one failing stale renewal after Unlock. distinct = distinct (scenario kind, L, k / phase / re-acquisition) instances run")
 	run.Assume("two-sided time bounds are guarded by a stall canary: a bound broken while the canary saw a stall above L/8 is repeated (up to 3 times) and only a repeat without stall counts")
 	run.Assume("a transient renewal failure is an attempt that was not applied (request lost); unacknowledged but applied renewals are not generated")
 
@@ -793,6 +884,16 @@ func TestCheck(t *testing.T) {
 		}
 	}()
 	defer func() { close(stopHeap); run.Add("timer_queue_invariant_checks", heapChecks.Load()) }()
+	// S7: scenarios that need a process of their own (nothing else uses the timer pool)
+	var cwg sync.WaitGroup
+	cwg.Add(1)
+	go func() {
+		defer cwg.Done()
+		for c := range shard.Run(run, "TestChild", "quiet", len(quietList()), 10*time.Minute) {
+			run.DistinctStr(c)
+		}
+	}()
+	defer cwg.Wait()
 	var wg sync.WaitGroup
 	sem := make(chan struct{}, 48)
 	for _, sc := range list {
